@@ -60,7 +60,7 @@ fn unesc(s: &str) -> String {
 pub fn build_expander() -> Result<PathBuf, String> {
     let out = Command::new("cargo")
         .current_dir(REPO)
-        .args(["test", "-p", "sylvia-derive", "--features", "verif-hook", "--no-run", "--offline", "--message-format=json", "--target-dir"])
+        .args(["test", "-p", "sylvia-derive", "--features", "verif-hook,mt,cosmwasm_1_2", "--no-run", "--offline", "--message-format=json", "--target-dir"])
         .arg(target_dir("expander"))
         .env("SYLVIA_VERIF_HARNESS", format!("{VERIF}/engine/hook/expand_server.rs"))
         .env("CARGO_NET_OFFLINE", "true")
